@@ -60,10 +60,10 @@ impl<'a> Tape<'a> {
 }
 
 pub const ALPHA: &[char] =
-    &['a', 'b', 'A', 'B', '.', '-', '_', '0', '1', 'é', 'É', '字', ' ', '\n', '𐐨', '𐐀', '\u{301}'];
+    &['a', 'b', 'A', 'B', '.', '-', '_', '0', '1', 'é', 'É', '字', ' ', '\n', '𐐨', '𐐀', '\u{301}', '\u{feff}', '\t'];
 /// characters used for path components (no separator)
 pub const PATH_ALPHA: &[char] =
-    &['a', 'b', 'A', 'B', '.', '-', '_', '0', '1', 'é', 'É', '字', ' ', '\n', 'x', '*', '[', '{', ',', '𐐨', '𐐀', '\u{301}'];
+    &['a', 'b', 'A', 'B', '.', '-', '_', '0', '1', 'é', 'É', '字', ' ', '\n', 'x', '*', '[', '{', ',', '𐐨', '𐐀', '\u{301}', '\u{feff}', '\t'];
 
 pub const K_B: u8 = 1; // boundary
 pub const K_Z: u8 = 2; // zero-or-more
